@@ -36,8 +36,8 @@ Section CLayer.
   Variable new_precond : nat -> matrix -> option ptree -> Obj.      (* new AMG(A, prm) / new AMG(A) *)
   Variable new_solver : nat -> matrix -> option ptree -> Obj.       (* new Solver(A, prm) / new Solver(A) *)
   Variable precond_apply : Obj -> X -> X -> X * Obj.                (* amg->apply(rhs, x) *)
-  Variable solver_solve : Obj -> X -> X -> (Res * X) * Obj.         (* (*slv)(rhs, x) *)
-  Variable solver_solve_mtx : Obj -> matrix -> X -> X -> (Res * X) * Obj.   (* (*slv)(A, rhs, x) *)
+  Variable solver_solve : Obj -> X -> X -> (Res * X) * Obj.         (* slv->operator()(rhs, x) *)
+  Variable solver_solve_mtx : Obj -> matrix -> X -> X -> (Res * X) * Obj.   (* slv->operator()(A, rhs, x) *)
 
   (* ---- the table ---- *)
   Inductive entry :=
@@ -84,7 +84,7 @@ Section CLayer.
     | Some p => match tlookup p tb with Some (EParams t) => Some (Some t) | _ => None end
     end.
 
-  (* None = undefined behaviour (dangling or wrongly typed void*) *)
+  (* None = undefined behaviour (dangling or wrongly typed handle pointer) *)
   Definition exec_r (tb : table) (c : rcall) : option (table * cout) :=
     match c with
     | RPCreate h =>
@@ -105,7 +105,7 @@ Section CLayer.
     | RAApply h rhs x =>
         match tlookup h tb with
         | Some (EPrecond n o) =>
-            Some (tset h (EPrecond n (snd (precond_apply o rhs x))) tb, OX (fst (precond_apply o rhs x)))
+            let r := precond_apply o rhs x in Some (tset h (EPrecond n (snd r)) tb, OX (fst r))
         | _ => None end
     | RADestroy h =>
         match tlookup h tb with Some (EPrecond _ _) => Some (tremove h tb, ONone) | _ => None end
@@ -117,15 +117,13 @@ Section CLayer.
     | RSSolve _ h rhs x =>
         match tlookup h tb with
         | Some (ESolver n o) =>
-            Some (tset h (ESolver n (snd (solver_solve o rhs x))) tb,
-                  ORes (fst (fst (solver_solve o rhs x))) (snd (fst (solver_solve o rhs x))))
+            let r := solver_solve o rhs x in Some (tset h (ESolver n (snd r)) tb, ORes (fst (fst r)) (snd (fst r)))
         | _ => None end
     | RSSolveMtx f h ptr col val rhs x =>
         match tlookup h tb with
         | Some (ESolver n o) =>
-            let A := build V dv (base_of f) n ptr col val in
-            Some (tset h (ESolver n (snd (solver_solve_mtx o A rhs x))) tb,
-                  ORes (fst (fst (solver_solve_mtx o A rhs x))) (snd (fst (solver_solve_mtx o A rhs x))))
+            let r := solver_solve_mtx o (build V dv (base_of f) n ptr col val) rhs x in
+            Some (tset h (ESolver n (snd r)) tb, ORes (fst (fst r)) (snd (fst r)))
         | _ => None end
     | RSDestroy h =>
         match tlookup h tb with Some (ESolver _ _) => Some (tremove h tb, ONone) | _ => None end
